@@ -621,9 +621,11 @@ def twins(repo, res):
 
 
 def run(repo, res, tier):
-    res.rules = ["RUN-GROUP admission rule", "K1 batch-level branches", "K2 row-axis reductions", "TWIN scalar/vector branch agreement", "L2-GROUP", "L2-SCATTER", "L2-PAD", "K3 EXPAND-PAIR", "LAY axis-layout typing of the level-2 plumbing (assume/guarantee over get_src_dict, getBH_level1, getBH_level2)"]
+    res.rules = ["IDX-SPACE integer row numbers index arrays of their own space", "RUN-GROUP admission rule", "K1 batch-level branches", "K2 row-axis reductions", "TWIN scalar/vector branch agreement", "L2-GROUP", "L2-SCATTER", "L2-PAD", "K3 EXPAND-PAIR", "LAY axis-layout typing of the level-2 plumbing (assume/guarantee over get_src_dict, getBH_level1, getBH_level2)"]
     run_group(repo, res)
     k1_k2(repo, res)
+    import rules_idxspace
+    rules_idxspace.run(repo, res, "IDX-SPACE", lambda mn: mn.startswith(FIELDS))
     twins(repo, res)
     level2(repo, res)
     expand_pair(repo, res)
